@@ -1074,6 +1074,10 @@ class PackBasedObjectStore(PackCapableObjectStore, PackedObjectContainer):
         """
         if self.contains_packed(sha) or self.contains_loose(sha):
             return True
+        # The object may have been packed, and its loose file removed, by a
+        # concurrent repack since the packs were searched above.
+        if self.contains_packed(sha):
+            return True
         for alternate in self.alternates:
             if sha in alternate:
                 return True
@@ -1431,6 +1435,12 @@ class PackBasedObjectStore(PackCapableObjectStore, PackedObjectContainer):
         ret = self._get_loose_object(hexsha)
         if ret is not None:
             return ret.type_num, ret.as_raw_string()
+        # The object may have been packed, and its loose file removed, by a
+        # concurrent repack since the packs were searched above.
+        try:
+            return self._lookup_in_packs(lambda p: p.get_raw(sha))
+        except KeyError:
+            pass
         for alternate in self.alternates:
             try:
                 return alternate.get_raw(hexsha)
